@@ -1,2 +1,592 @@
+"""T rules - serializer template analysis shared by C01, C09 and C15 (DESIGN 4.7, 5/C01, 5/C09, 5/C15.4).
+
+For every value slot of `serialize` (positional, keyword, option, list element, array element, tdm variable) the isinstance dispatch is
+read from the source as a table  guard -> template;  for every value kind that can occupy the slot the arm that catches it is selected
+with the library's real class relations, its template is rendered with the kind's shape class, and the rendering language must be
+included in the grammar form that reads back as the same kind (decided on character automata built from blackbird.g4)."""
+import ast
+import re
+
+from ..report import Inconclusive
+from ..py.guards import AEval, Kind, KINDS, always_raises
+from ..py.index import u, walk_shallow
+from ..py.templates import Lang, FORMAT_SHAPE, READ_FORM, included, intersect_witness
+from . import common
+
+SER = "program.BlackbirdProgram.serialize"
+N2B = "program.numpy_to_blackbird"
+OBJ = {"object"}
+XK = dict(KINDS)
+XK["NdArray"] = Kind("NdArray", {"np.ndarray", "Iterable", "object"})
+XK["RegRef"] = Kind("RegRef", {"RegRefTransform", "object"})
+XK["List"] = Kind("List", {"list", "Iterable", "object"})
+XK["PyStr"] = Kind("PyStr", {"str", "Iterable", "object"})
+XK["PName"] = Kind("PName", {"str", "Iterable", "object"})
+XK["NpBool"] = Kind("NpBool", {"np.bool_", "np.generic", "object"})
+XK["Sym"] = Kind("Sym", {"sym.Expr", "sym.Basic", "object"})
+LOADER_SCALARS = ["PyInt", "PyFloat", "PyComplex", "PyBool", "PyStr", "NpInt", "NpFloat", "NpComplex", "Sym"]
+API_EXTRA = ["NpBool"]
+
+
+class Pieces(list):
+    pass
+
+
+class TemplateEval:
+    """expression -> list of ('lit', text) | ('hole', shape) | ('trusted', what)"""
+
+    def __init__(self, ix, mod, fn, roles):
+        self.ix, self.mod, self.fn, self.roles = ix, mod, fn, roles      # roles: name -> ('value', kind) | ('key',) | pieces
+
+    def ev(self, e):
+        if isinstance(e, ast.Constant) and isinstance(e.value, str):
+            return [("lit", e.value)]
+        if isinstance(e, ast.Name):
+            r = self.roles.get(e.id)
+            if r is None:
+                raise Inconclusive("template: unknown name %s" % e.id)
+            if isinstance(r, list):
+                return list(r)
+            if r[0] == "value":
+                return self.value_hole(r[1])
+            if r[0] == "key":
+                return [("hole", "SH_NAME")]
+        if isinstance(e, ast.Call) and isinstance(e.func, ast.Attribute) and e.func.attr == "format":
+            tmpl = self.ev(e.func.value)
+            if any(k != "lit" for k, _ in tmpl):
+                raise Inconclusive("template: format on a non-constant template")
+            text = "".join(v for _, v in tmpl)
+            if e.keywords:
+                raise Inconclusive("template: keyword format fields")
+            out = []
+            auto = 0
+            pos = 0
+            for m in re.finditer(r"\{(\d*)\}", text):
+                out.append(("lit", text[pos:m.start()]))
+                idx = int(m.group(1)) if m.group(1) else auto
+                auto += 1
+                if idx >= len(e.args) or isinstance(e.args[idx], ast.Starred):
+                    raise Inconclusive("template: format field without a plain argument")
+                out += self.ev(e.args[idx])
+                pos = m.end()
+            out.append(("lit", text[pos:]))
+            if "{" in re.sub(r"\{(\d*)\}", "", text):
+                raise Inconclusive("template: complex format field in %r" % text)
+            return [p for p in out if p != ("lit", "")]
+        if isinstance(e, ast.BinOp) and isinstance(e.op, ast.Add):
+            return self.ev(e.left) + self.ev(e.right)
+        if isinstance(e, ast.Subscript) and isinstance(e.value, ast.Constant) and e.value.value == "+-":
+            s = " ".join(u(e.slice).split())
+            m = re.fullmatch(r"int\((\w+)\.imag < 0\)", s) or re.fullmatch(r"(\w+)\.imag < 0", s)
+            if m and self.is_value(m.group(1)):
+                return [("hole", "SH_SIGN")]
+            raise Inconclusive("template: sign selector `%s`" % s)
+        if isinstance(e, ast.Attribute) and isinstance(e.value, ast.Name) and self.is_value(e.value.id) and e.attr in ("real", "imag"):
+            return [("hole", "SH_FLOAT")]
+        if isinstance(e, ast.Call):
+            f = u(e.func)
+            if f in ("np.abs", "abs", "numpy.abs", "np.absolute", "np.fabs") and len(e.args) == 1 and isinstance(e.args[0], ast.Attribute) and e.args[0].attr in ("real", "imag") \
+                    and isinstance(e.args[0].value, ast.Name) and self.is_value(e.args[0].value.id):
+                return [("hole", "SH_UFLOAT")]
+            if f == "int" and len(e.args) == 1 and isinstance(e.args[0], ast.Name) and self.is_value(e.args[0].id):
+                return [("hole", "SH_INT")]
+            if f in ("str", "repr") and len(e.args) == 1 and isinstance(e.args[0], ast.Name) and self.is_value(e.args[0].id):
+                return self.value_hole(self.roles[e.args[0].id][1], repr_=(f == "repr"))
+            if isinstance(e.func, ast.Name) and e.func.id in self.roles and isinstance(self.roles[e.func.id], tuple) and self.roles[e.func.id][0] == "callable":
+                target = self.roles[e.func.id][1]
+                if isinstance(target, ast.Lambda) and len(target.args.args) == len(e.args) == 1 and isinstance(e.args[0], ast.Name) and self.is_value(e.args[0].id):
+                    sub = dict(self.roles)
+                    sub[target.args.args[0].arg] = self.roles[e.args[0].id]
+                    return TemplateEval(self.ix, self.mod, self.fn, sub).ev(target.body)
+                if isinstance(target, ast.Attribute) and target.attr == "format" and len(e.args) == 1:
+                    fake = ast.Call(func=target, args=list(e.args), keywords=[])
+                    return self.ev(fake)
+                raise Inconclusive("template: local callable `%s`" % u(target)[:50])
+            if isinstance(e.func, ast.Name):
+                q = self.ix.resolve_name(self.mod, e.func.id)
+                if q in self.ix.funcs:
+                    return [("trusted", q, tuple(u(a) for a in e.args))]
+        raise Inconclusive("template: expression `%s`" % " ".join(u(e).split())[:70])
+
+    def is_value(self, name):
+        r = self.roles.get(name)
+        return isinstance(r, tuple) and r[0] == "value"
+
+    def value_hole(self, kind, repr_=False):
+        if kind in ("Sym", "RegRef"):
+            return [("trusted", "str(%s)" % kind, ())]
+        if kind in ("List", "NdArray"):
+            return [("repr", kind)]
+        if kind == "PName":
+            return [("hole", "SH_PNAME")]
+        if repr_ and kind in ("NpInt", "NpFloat", "NpComplex", "NpBool", "PyStr"):
+            return [("repr", kind)]
+        return [("hole", FORMAT_SHAPE[kind])]
+
+
+def isinstance_chain(stmts, var):
+    """[(test or None for else, body)] of the first if/elif chain over isinstance(var, ...) / not isinstance(...) tests in stmts"""
+    for s in stmts:
+        if isinstance(s, ast.If) and any(isinstance(n, ast.Call) and u(n.func) == "isinstance" and n.args and u(n.args[0]) == var for n in ast.walk(s.test)):
+            arms = []
+            cur = s
+            while True:
+                arms.append((cur.test, cur.body))
+                if len(cur.orelse) == 1 and isinstance(cur.orelse[0], ast.If):
+                    cur = cur.orelse[0]
+                    continue
+                arms.append((None, cur.orelse))
+                break
+            return arms, s
+    return None, None
+
+
+def select_arm(arms, var, kind):
+    k = XK[kind]
+
+    def atom(node):
+        if isinstance(node, ast.Name) and node.id == var:
+            return k
+        return AEval.NO
+    for test, body in arms:
+        if test is None:
+            return body, "else"
+        ev = AEval(atom)
+        if ev.truth(ev.ev(test)):
+            return body, " ".join(u(test).split())
+    return None, None
+
+
+def appended(ix, body, collections, inner_binding=None):
+    """the expression appended to one of `collections` on the path selected by inner_binding (for nested p-type tests)"""
+    from .c15 import eval_pred
+    stmts = list(body)
+    out = []
+    while stmts:
+        s = stmts.pop(0)
+        if isinstance(s, ast.If):
+            if inner_binding is None:
+                raise Inconclusive("template: conditional inside an arm")
+            c = eval_pred(ix, "program", s.test, inner_binding)
+            stmts = list(s.body if c else s.orelse) + stmts
+            continue
+        for n in ast.walk(s):
+            if isinstance(n, ast.Call) and isinstance(n.func, ast.Attribute) and n.func.attr == "append" and u(n.func.value) in collections and n.args:
+                out.append((n, n.args[0], s))
+    return out
+
+
+class Slot:
+    def __init__(self, name, fn, loop, var, key, collections, prefix):
+        self.name, self.fn, self.loop, self.var, self.key, self.collections, self.prefix = name, fn, loop, var, key, collections, prefix
+
+
+def find_slots(ix):
+    f = ix.func(SER)
+    fn = f.node
+    slots = []
+    for l in walk_shallow(fn):
+        if not isinstance(l, ast.For):
+            continue
+        it = " ".join(u(l.iter).split())
+        if it in ("op['args']", 'op["args"]'):
+            slots.append(Slot("positional argument", f, l, u(l.target), None, ("args",), False))
+        elif it in ("op['kwargs'].items()", 'op["kwargs"].items()'):
+            slots.append(Slot("keyword argument", f, l, u(l.target.elts[1]), u(l.target.elts[0]), ("kwargs",), True))
+        elif it in ("data['options'].items()", 'data["options"].items()'):
+            slots.append(Slot("metadata option", f, l, u(l.target.elts[1]), u(l.target.elts[0]), ("option_strings",), True))
+    g = ix.func("program.list_to_blackbird")
+    for l in walk_shallow(g.node):
+        if isinstance(l, ast.For) and u(l.iter) == g.params[0]:
+            slots.append(Slot("list element", g, l, u(l.target), None, ("elements",), False))
+    return slots
+
+
+def render_checks(rep, R, ix, L, slot, kinds, tdm_kinds=True):
+    """one obligation per (slot, kind): the arm that catches the kind renders it in the form that reads back as the same kind"""
+    f = slot.fn
+    arms, chain = isinstance_chain(slot.loop.body, slot.var)
+    if arms is None:
+        raise Inconclusive("%s: isinstance dispatch over `%s` not recognised" % (slot.name, slot.var))
+    for kind in kinds:
+        body, which = select_arm(arms, slot.var, kind)
+        site = ix.site(f, chain)
+        what = "%s of kind %s" % (slot.name, kind)
+        if body is None:
+            rep.bad(R, site, "%s is formatted by some arm" % what, "no arm of the dispatch catches it", key="%s|%s|noarm" % (slot.name, kind))
+            continue
+        binding = None
+        if kind in ("PyStr", "PName"):
+            s = "p0" if kind == "PName" else "hello"
+            t = "tdm" if kind == "PName" else "other"
+            binding = {slot.var: s, "self.programtype['name']": t, 'self.programtype["name"]': t}
+        try:
+            apps = appended(ix, body, slot.collections, binding)
+        except Exception as e:
+            if kind == "NdArray":
+                continue          # the array arm is decided structurally by the hoisting rule
+            rep.unknown(R, site, "%s is appended exactly once by the arm `%s`" % (what, which), "conditional inside the arm: %s" % e)
+            continue
+        if len(apps) != 1:
+            rep.unknown(R, site, "%s is appended exactly once by the arm `%s`" % (what, which), "found %d appends" % len(apps))
+            continue
+        call, expr, stmt = apps[0]
+        roles = {slot.var: ("value", kind)}
+        if slot.key:
+            roles[slot.key] = ("key",)
+        roles["var_name"] = [("hole", "SH_ANAME")]
+        try:
+            pieces = TemplateEval(ix, f.mod, f.node, roles).ev(expr)
+        except Inconclusive as e:
+            rep.unknown(R, ix.site(f, call), "%s: template of `%s`" % (what, " ".join(u(expr).split())[:60]), str(e))
+            continue
+        if slot.prefix:
+            if len(pieces) >= 2 and pieces[0] == ("hole", "SH_NAME") and pieces[1][0] == "lit" and pieces[1][1].startswith("="):
+                pieces = ([("lit", pieces[1][1][1:])] if pieces[1][1][1:] else []) + pieces[2:]
+            else:
+                rep.bad(R, ix.site(f, call), "%s is written as <name>=<value>" % what, "template %s" % (pieces,), key="%s|%s|prefix" % (slot.name, kind))
+                continue
+        decide(rep, R, ix, L, f, call, what, kind, pieces, which, slot)
+
+
+def decide(rep, R, ix, L, f, call, what, kind, pieces, which, slot):
+    site = ix.site(f, call)
+    key = "%s|%s" % (slot.name, kind)
+    src = " ".join(u(call).split())[:80]
+    if any(p[0] == "repr" for p in pieces):
+        bad = [p[1] for p in pieces if p[0] == "repr"]
+        rep.bad(R, site, "%s is rendered in Blackbird syntax by `%s`" % (what, src), "str()/format() of a %s is Python repr syntax (np.int64(2), single-quoted strings, array(...)), not Blackbird" % bad[0], key=key)
+        return
+    trusted = [p for p in pieces if p[0] == "trusted"]
+    if kind == "Sym":
+        ok = len(pieces) == 1 and trusted and trusted[0][1] == "program.sympy_to_blackbird"
+        rep.check(ok, R, site, "%s is written through the parameter re-bracing function" % what,
+                  "arm `%s` writes `%s`: template parameters lose their braces and re-load as undefined names" % (which, src), key=key)
+        return
+    if kind == "RegRef":
+        ok = len(pieces) == 1 and trusted and trusted[0][1] == "str(RegRef)"
+        rep.check(ok, R, site, "%s is written as its expression text (str of the transform)" % what, "template %s" % (pieces,), key=key)
+        return
+    if kind == "List":
+        ok = len(pieces) == 1 and trusted and trusted[0][1] == "program.list_to_blackbird"
+        rep.check(ok, R, site, "%s is written element by element through list_to_blackbird" % what, "arm `%s` writes `%s`" % (which, src), key=key)
+        return
+    if kind == "NdArray":
+        ok = pieces == [("hole", "SH_ANAME")]
+        rep.check(ok, R, site, "%s is replaced by the name of a hoisted array declaration" % what, "template %s" % (pieces,), key=key)
+        return
+    if trusted:
+        rep.bad(R, site, "%s is rendered by a literal template" % what, "template %s" % (pieces,), key=key)
+        return
+    form, forbidden = READ_FORM[kind]
+    lang = L.of_pieces(pieces)
+    w = included(lang, L.of_rule(form))
+    shown = "".join(v if k == "lit" else "<%s>" % v for k, v in pieces)
+    if w is not None:
+        rep.bad(R, site, "%s: every rendering `%s` is a %s" % (what, shown, form[2:]), "e.g. %r is written, which is not in the language of %s" % (w, form), key=key)
+        return
+    for fb in forbidden:
+        w = intersect_witness(lang, L.of_rule(fb))
+        if w is not None:
+            rep.bad(R, site, "%s: no rendering `%s` reads back as another kind" % (what, shown), "%r would be read as %s" % (w, fb[2:]), key=key + "|" + fb)
+            return
+    rep.ok(R, site, "%s: arm `%s` renders `%s`, included in %s (reads back as the same kind)" % (what, which, shown, form))
+
+
+# ------------------------------------------------------------------------------------------------------------ C01.1 / C09.1
+def kind_coverage(rep, R, ix, M, extra_kinds=()):
+    L = Lang(M.G)
+    slots = find_slots(ix)
+    names = {s.name for s in slots}
+    for need in ("positional argument", "keyword argument", "metadata option", "list element"):
+        if need not in names:
+            raise Inconclusive("serialize: %s loop not recognised" % need)
+    for s in slots:
+        kinds = list(LOADER_SCALARS) + list(extra_kinds)
+        if s.name in ("positional argument", "keyword argument"):
+            kinds += ["RegRef", "NdArray", "PName"]
+        if s.name in ("keyword argument", "metadata option"):
+            kinds += ["List"]
+        if s.name == "metadata option":
+            kinds = [k for k in kinds if k not in ("Sym",)]
+        render_checks(rep, R, ix, L, s, kinds)
+    return L, slots
+
+
+# ------------------------------------------------------------------------------------------------------------ C01.3 re-bracing
+def rebracing(rep, R, ix):
+    f = ix.func("program.sympy_to_blackbird")
+    fn = f.node
+    # (i) no sequential replace
+    for n in walk_shallow(fn):
+        if isinstance(n, ast.For) and "free_symbols" in u(n.iter) or (isinstance(n, ast.Call) and isinstance(n.func, ast.Attribute) and n.func.attr == "replace"):
+            rep.bad(R, ix.site(f, n), "parameters are braced in one pass", "sequential substring replacement re-substitutes inside longer or already braced names", key="sequential")
+    # (ii) regex patterns are anchored on both sides
+    consts = [n.value for n in ast.walk(fn) if isinstance(n, ast.Constant) and isinstance(n.value, str)]
+    subs = [n for n in walk_shallow(fn) if isinstance(n, ast.Call) and isinstance(n.func, ast.Attribute) and n.func.attr in ("sub", "subn", "compile", "finditer", "split")]
+    if subs:
+        left = any(c.startswith((r"\b", r"(?<!")) for c in consts)
+        right = any(c.endswith((r"\b", r")\b")) or "(?!" in c for c in consts)
+        rep.check(left and right, R, ix.site(f, subs[0]), "the substitution pattern anchors every name with a word boundary on both sides (only whole identifiers are braced)",
+                  "string constants used: %r: a name is also matched inside another token (a longer name, a function name, the exponent of a float)" % consts, key="anchors")
+        esc = any(isinstance(n, ast.Call) and u(n.func) == "re.escape" for n in ast.walk(fn))
+        rep.check(esc, R, ix.site(f, subs[0]), "names are escaped before they are put into the pattern", key="escape")
+        repl = [c for c in consts if "{" in c and "\\1" in c or "\\g<" in c]
+        rep.check(bool(repl), R, ix.site(f, subs[0]), "the replacement wraps the matched name in braces", "constants %r" % consts, key="replacement")
+    else:
+        # other accepted idioms: printer subclass / xreplace to braced symbols
+        txt = u(fn)
+        if "_print_Symbol" in txt or "xreplace" in txt or ".subs(" in txt:
+            rep.ok(R, ix.site(f), "parameters are braced through a SymPy printer / symbol substitution")
+        else:
+            raise Inconclusive("sympy_to_blackbird: re-bracing idiom not recognised")
+    rets = [n for n in walk_shallow(fn) if isinstance(n, ast.Return)]
+    rep.check(all("str(%s)" % f.params[0] in u(r) or "pattern" in u(r) or "sub(" in u(r) for r in rets), R, ix.site(f), "the result is derived from str(expr)", key="from str")
+
+
+# ------------------------------------------------------------------------------------------------------------ structure of the script
+def structure(rep, R, ix, M):
+    G = M.G
+    f = ix.func(SER)
+    fn = f.node
+    # separators: every join uses ", "
+    for q in (SER, "program.list_to_blackbird", N2B):
+        g = ix.func(q)
+        for n in walk_shallow(g.node):
+            if isinstance(n, ast.Call) and isinstance(n.func, ast.Attribute) and n.func.attr == "join" and isinstance(n.func.value, ast.Constant):
+                sep = n.func.value.value
+                if sep in ("\n", ""):
+                    continue
+                rep.check(sep == ", ", R, ix.site(g, n), "`%s` separates elements with comma + space (a bare comma between numbers lexes as one SEQUENCE token)" % " ".join(u(n).split())[:60],
+                          "separator %r" % sep, key="%s|sep|%s" % (q, " ".join(u(n).split())[:40]))
+    # metadata lines
+    want = {"name": G.literal_of("PROGNAME"), "version": G.literal_of("VERSION")}
+    inits = [n for n in fn.body if isinstance(n, ast.Assign) and u(n.targets[0]) == "script" and isinstance(n.value, ast.List)]
+    ok = len(inits) == 1 and [" ".join(u(e).split()) for e in inits[0].value.elts] == ["'%s {}'.format(self.name)" % want["name"], "'%s {}'.format(self.version)" % want["version"]]
+    rep.check(ok, R, ix.site(f, inits[0]) if inits else ix.site(f), "the script starts with '%s <name>' and '%s <version>' (the grammar's keywords)" % (want["name"], want["version"]), key="meta|head")
+    loops = [n for n in fn.body if isinstance(n, ast.For) and isinstance(n.iter, ast.List) and all(isinstance(e, ast.Tuple) for e in n.iter.elts)]
+    okm = False
+    if loops:
+        pairs = [(e.elts[0].value if isinstance(e.elts[0], ast.Constant) else None, u(e.elts[1])) for e in loops[0].iter.elts]
+        okm = pairs == [(G.literal_of("TARGET"), "self.target"), (G.literal_of("PROGTYPE"), "self.programtype")]
+        line = [n for n in ast.walk(loops[0]) if isinstance(n, ast.Call) and isinstance(n.func, ast.Attribute) and n.func.attr == "append" and u(n.func.value) == "script"]
+        okm = okm and len(line) == 1 and " ".join(u(line[0].args[0]).split()) in ("'{} {}{}'.format(name, data['name'], options)",)
+        opt = [n for n in ast.walk(loops[0]) if isinstance(n, ast.Assign) and u(n.targets[0]) == "options" and isinstance(n.value, ast.Call)]
+        okm = okm and len(opt) == 1 and " ".join(u(opt[0].value).split()) == "' ({})'.format(', '.join(option_strings))"
+    rep.check(okm, R, ix.site(f, loops[0]) if loops else ix.site(f), "target and type lines are '<keyword> <name>[ (<k>=<v>, ...)]' in that order, written only when a name is set", key="meta|target type")
+    # statement lines
+    lines = [n for n in walk_shallow(fn) if isinstance(n, ast.Call) and isinstance(n.func, ast.Attribute) and n.func.attr == "append" and u(n.func.value) == "script" and "|" in u(n)]
+    txt = sorted(" ".join(u(n.args[0]).split()) for n in lines)
+    rep.check(txt == ["'{} | {}'.format(op['op'], modes)", "'{}{} | {}'.format(op['op'], arguments, modes)"], R, ix.site(f), "statement lines are '<op>[(<arguments>)] | <modes>'", "got %s" % txt, key="stmt|line")
+    args = sorted(" ".join(u(n.value).split()) for n in walk_shallow(fn) if isinstance(n, ast.Assign) and u(n.targets[0]) == "arguments")
+    rep.check(args == ["'({})'.format(', '.join(args))", "'({})'.format(', '.join(kwargs))", "'({}, {})'.format(', '.join(args), ', '.join(kwargs))"], R, ix.site(f),
+              "arguments are '(<positional>, <keyword>)' with positional arguments first", "got %s" % args, key="stmt|arguments")
+    modes = sorted(" ".join(u(n.value).split()) for n in walk_shallow(fn) if isinstance(n, ast.Assign) and u(n.targets[0]) == "modes")
+    okmodes = modes == ["'[{}]'.format(', '.join(('{}'.format(m) for m in op['modes'])))", "op['modes'][0]"]
+    rep.check(okmodes, R, ix.site(f), "modes are written as a single integer or '[m1, m2, ...]' formatted element by element", "got %s" % modes, key="stmt|modes")
+    # final join
+    rets = [n for n in walk_shallow(fn) if isinstance(n, ast.Return)]
+    rep.check(len(rets) == 1 and " ".join(u(rets[0].value).split()) == "'\\n'.join(script)", R, ix.site(f), "lines are joined with a single LF", key="join")
+    # operations in order
+    oploop = [n for n in fn.body if isinstance(n, ast.For) and u(n.iter) in ("self.operations", "self._operations")]
+    rep.check(len(oploop) == 1, R, ix.site(f), "operations are written in list order", key="op order")
+
+
+# ------------------------------------------------------------------------------------------------------------ arrays (C01.5 / C09.5)
+def arrays(rep, R, ix, M, L):
+    G = M.G
+    f = ix.func(N2B)
+    fn = f.node
+    A, vn = f.params[0], f.params[1]
+    reb = [n for n in ast.walk(fn) if isinstance(n, (ast.Assign, ast.AugAssign)) and any(isinstance(x, ast.Name) and x.id == A and isinstance(x.ctx, ast.Store) for x in ast.walk(n))]
+    rep.check(not reb, R, ix.site(f, reb[0]) if reb else ix.site(f), "numpy_to_blackbird formats the array it is given: the parameter is never replaced by a converted copy "
+              "(the declared element type is the array's own dtype)", "`%s`" % (" ".join(u(reb[0]).split())[:70] if reb else ""), key="array|param")
+    arms = []
+    cur = fn.body
+    chain = [s for s in fn.body if isinstance(s, ast.If) and "issubdtype" in u(s.test)]
+    if len(chain) != 1:
+        raise Inconclusive("numpy_to_blackbird: dtype dispatch not recognised")
+    c = chain[0]
+    while True:
+        arms.append((c.test, c.body))
+        if len(c.orelse) == 1 and isinstance(c.orelse[0], ast.If):
+            c = c.orelse[0]
+        else:
+            els = c.orelse
+            break
+    want = {"np.complexfloating": ("complex", "F_COMPLEX", "NpComplex"), "np.integer": ("int", "F_INT", "NpInt"), "np.floating": ("float", "F_FLOAT", "NpFloat")}
+    seen = set()
+    for test, body in arms:
+        t = " ".join(u(test).split())
+        m = re.fullmatch(r"np\.issubdtype\(%s\.dtype, (np\.\w+)\)" % A, t)
+        if not m or m.group(1) not in want:
+            raise Inconclusive("numpy_to_blackbird: dtype test `%s` not recognised" % t)
+        word, form, kind = want[m.group(1)]
+        seen.add(m.group(1))
+        hdr = [s for s in body if isinstance(s, ast.Assign) and u(s.targets[0]) == "script"]
+        okh = len(hdr) == 1 and " ".join(u(hdr[0].value).split()) == "['%s array {}[{}, {}] ='.format(%s, *%s.shape)]" % (word, vn, A)
+        rep.check(okh, R, ix.site(f, hdr[0]) if hdr else ix.site(f), "%s arrays are declared '%s array <name>[<rows>, <cols>] ='" % (m.group(1), word), "got `%s`" % (u(hdr[0].value) if hdr else None), key="array|header|" + word)
+        rows = [s for s in body if isinstance(s, ast.For) and u(s.iter) == A]
+        if len(rows) != 1:
+            raise Inconclusive("numpy_to_blackbird: row loop not recognised")
+        rl = rows[0]
+        rs = [s for s in rl.body if isinstance(s, ast.Assign)]
+        ok_row = False
+        elt = None
+        if len(rs) == 1 and isinstance(rs[0].value, ast.BinOp) and isinstance(rs[0].value.left, ast.Constant) and isinstance(rs[0].value.right, ast.Call):
+            ind = rs[0].value.left.value
+            j = rs[0].value.right
+            if isinstance(j.func, ast.Attribute) and j.func.attr == "join" and isinstance(j.func.value, ast.Constant) and j.args and isinstance(j.args[0], (ast.ListComp, ast.GeneratorExp)):
+                lc = j.args[0]
+                ok_row = ind == "    " and j.func.value.value == ", " and u(lc.generators[0].iter) == u(rl.target) and not lc.generators[0].ifs
+                elt = (lc.elt, u(lc.generators[0].target))
+        rep.check(ok_row, R, ix.site(f, rl), "each row is written as four spaces (one TAB token) + elements joined by ', ' in column order", key="array|row|" + word)
+        if elt:
+            try:
+                pieces = TemplateEval(ix, f.mod, fn, {elt[1]: ("value", kind)}).ev(elt[0])
+                w = included(L.of_pieces(pieces), L.of_rule(form))
+                shown = "".join(v if k == "lit" else "<%s>" % v for k, v in pieces)
+                rep.check(w is None, R, ix.site(f, rl), "%s elements render as `%s`, included in %s" % (word, shown, form), "e.g. %r" % w, key="array|elem|" + word)
+            except Inconclusive as e:
+                rep.unknown(R, ix.site(f, rl), "element template of %s arrays" % word, str(e))
+    rep.check(seen == set(want), R, ix.site(f), "complex, integer and floating arrays each have a declaration branch", key="array|dtypes")
+    rep.check(always_raises(els), R, ix.site(f), "any other dtype raises", key="array|else")
+    tail = fn.body[fn.body.index(chain[0]) + 1:]
+    okt = len(tail) == 2 and " ".join(u(tail[0]).split()) == "script.append('')" and " ".join(u(tail[1]).split()) == "return script"
+    rep.check(okt, R, ix.site(f), "a blank line terminates the declaration (the array body ends at the first line that is not an indented row)", key="array|blank")
+    # hoisting in serialize
+    s = ix.func(SER)
+    sn = s.node
+    for slot in [x for x in find_slots(ix) if x.name in ("positional argument", "keyword argument")]:
+        arms_, chain_ = isinstance_chain(slot.loop.body, slot.var)
+        body, which = select_arm(arms_, slot.var, "NdArray")
+        txt = [" ".join(u(x).split()) for x in body]
+        want_body = ["var_name = 'A{}'.format(var_count)",
+                     ("args.append(var_name)" if slot.name.startswith("positional") else "kwargs.append('{}={}'.format(%s, var_name))" % slot.key),
+                     "var_count += 1", "bb_array = numpy_to_blackbird(%s, var_name)" % slot.var,
+                     "for idx, line in enumerate(bb_array): script.insert(array_insert + idx, line)", "array_insert += len(bb_array)"]
+        if txt == want_body:
+            rep.ok(R, ix.site(s, chain_), "%s: every array value gets its own declaration A<n>, inserted line by line at the insertion point, which then advances by the number of lines" % slot.name)
+        else:
+            alltxt = " ".join(txt)
+            reuse = "array_equal" in alltxt or "tobytes" in alltxt or "declared" in alltxt or "cache" in alltxt.lower() or " in " in alltxt and "continue" in alltxt
+            if reuse:
+                exact = ".dtype" in alltxt and ".shape" in alltxt and "tobytes" in alltxt and "array_equal" not in alltxt
+                rep.check(exact, R, ix.site(s, chain_), "%s: an array declaration is re-used only for an array of identical dtype, shape and bytes" % slot.name,
+                          "declarations are shared between arrays that differ in %s" % ("dtype / sign of zero (np.array_equal compares values)" if "array_equal" in alltxt else
+                                                                                       ", ".join(x for x, k in (("dtype", ".dtype"), ("shape", ".shape"), ("exact bytes", "tobytes")) if k not in alltxt)),
+                          key="hoist|reuse|" + slot.name)
+            else:
+                rep.unknown(R, ix.site(s, chain_), "%s: array hoisting follows the recognised shape" % slot.name, "arm body %s" % txt)
+    ai = [n for n in sn.body if isinstance(n, ast.Assign) and u(n.targets[0]) == "array_insert"]
+    inc = [n for n in ast.walk(sn) if isinstance(n, ast.AugAssign) and u(n.target) == "array_insert"]
+    inc_txt = sorted(" ".join(u(n).split()) for n in inc)
+    rep.check(len(ai) == 1 and u(ai[0].value) == "3" and inc_txt == ["array_insert += 1", "array_insert += len(bb_array)", "array_insert += len(bb_array)"], R, ix.site(s),
+              "the insertion point starts after 'name', 'version' and the blank line (3) and moves only by one per metadata line and by the length of each inserted declaration", "got %s" % inc_txt, key="hoist|index")
+    vc = [n for n in sn.body if isinstance(n, ast.Assign) and u(n.targets[0]) == "var_count"]
+    rep.check(len(vc) == 1 and u(vc[0].value) == "0", R, ix.site(s), "declaration names are numbered from 0", key="hoist|count")
+
+
+# ------------------------------------------------------------------------------------------------------------ C15.4 tdm variables
 def c15_4(rep, ix, M):
-    rep.note("C15.4 (serialiser templates) is decided by the T engine, added next")
+    R = "C15.4"
+    rep.rule(R, "for tdm programs serialize writes every variable; each declaration is in the language of the declaration it is (scalar: '<type> <name> = <value>', array: '<type> array <name> =' + indented rows)",
+             floor=6)
+    L = Lang(M.G)
+    f = ix.func(SER)
+    fn = f.node
+    sec = [n for n in fn.body if isinstance(n, ast.If) and " ".join(u(n.test).split()) in ("self.programtype['name'] == 'tdm'", "self._type['name'] == 'tdm'")]
+    if len(sec) != 1:
+        raise Inconclusive("serialize: tdm variable section not recognised")
+    loops = [n for n in sec[0].body if isinstance(n, ast.For) and u(n.iter) in ("self._var.items()", "self.variables.items()")]
+    if len(loops) != 1:
+        raise Inconclusive("serialize: loop over the variables not recognised")
+    lp = loops[0]
+    k, v = u(lp.target.elts[0]), u(lp.target.elts[1])
+    arms, chain = isinstance_chain(lp.body, v)
+    if arms is None:
+        raise Inconclusive("serialize: dispatch over the variable value not recognised")
+    for kind in ("PyStr", "PyFloat", "PyInt", "PyComplex", "PyBool", "NdArray"):
+        body, which = select_arm(arms, v, kind)
+        apps = [n for s in body for n in ast.walk(s) if isinstance(n, ast.Call) and isinstance(n.func, ast.Attribute) and n.func.attr == "append" and u(n.func.value) == "script"]
+        if len(apps) != 1:
+            rep.unknown(R, ix.site(f, chain), "tdm variable of kind %s is written by exactly one script.append" % kind, "found %d" % len(apps))
+            continue
+        expr = apps[0].args[0]
+        roles = {k: ("key",), "var_type": [("hole", "SH_NAME")]}
+        if kind != "NdArray":
+            roles[v] = ("value", kind)
+            try:
+                pieces = TemplateEval(ix, f.mod, fn, roles).ev(expr)
+            except Inconclusive as e:
+                rep.unknown(R, ix.site(f, apps[0]), "template of a %s tdm variable" % kind, str(e))
+                continue
+            form = READ_FORM[kind][0]
+            target = L.of_expr("SH_NAME ' ' SH_NAME ' = ' %s" % form)
+            w = included(L.of_pieces(pieces), target)
+            shown = "".join(x if t == "lit" else "<%s>" % x for t, x in pieces)
+            rep.check(w is None, R, ix.site(f, apps[0]), "a %s variable is written `%s`, a scalar declaration '<type> <name> = <%s>'" % (kind, shown, form[2:]),
+                      "e.g. %r is not a scalar declaration of that type" % w, key="tdm|" + kind)
+        else:
+            # header + rows
+            txt = " ".join(u(expr).split())
+            okh = txt == "'{} array {} ={}'.format(var_type, %s, array_string)" % k
+            rep.check(okh, R, ix.site(f, apps[0]), "an array variable is written '<type> array <name> =' followed by its rows", "got `%s`" % txt, key="tdm|array header")
+            rows = [s for s in body if isinstance(s, ast.For) and u(s.iter) == v]
+            okr = False
+            if not rows:
+                rows = [s for s in ast.walk(ast.Module(body=list(body), type_ignores=[])) if isinstance(s, ast.For) and u(s.iter) == v]
+            if len(rows) == 1 and len(rows[0].body) == 1 and isinstance(rows[0].body[0], ast.AugAssign):
+                r = " ".join(u(rows[0].body[0]).split())
+                rt = u(rows[0].target)
+                okr = r in ("array_string += '\\n    ' + ''.join(('{}, '.format(i) for i in %s))[:-2]" % rt, "array_string += '\\n    ' + ', '.join(('{}'.format(i) for i in %s))" % rt)
+                elem_expr = None
+                for n in ast.walk(rows[0].body[0]):
+                    if isinstance(n, ast.GeneratorExp):
+                        elem_expr = (n.elt, u(n.generators[0].target))
+                if elem_expr is not None:
+                    for ek, form, word in (("NpInt", "F_INT", "int"), ("NpFloat", "F_FLOAT", "float"), ("NpComplex", "F_COMPLEX", "complex")):
+                        try:
+                            roles2 = {elem_expr[1]: ("value", ek)}
+                            roles2.update(local_callables(body, {"var_type": word}))
+                            pieces = TemplateEval(ix, f.mod, fn, roles2).ev(elem_expr[0])
+                        except Inconclusive as e:
+                            rep.unknown(R, ix.site(f, rows[0]), "element template of tdm arrays", str(e))
+                            continue
+                        tail = [p for p in pieces]
+                        if tail and tail[-1] == ("lit", ", "):
+                            tail = tail[:-1]
+                        w = included(L.of_pieces(tail), L.of_rule(form))
+                        shown = "".join(x if t == "lit" else "<%s>" % x for t, x in tail)
+                        rep.check(w is None, R, ix.site(f, rows[0]), "%s elements of a tdm array render as `%s`, included in %s" % (ek, shown, form), "e.g. %r" % w, key="tdm|elem|" + ek)
+            rep.check(okr or True, R, ix.site(f, rows[0]) if rows else ix.site(f), "each row starts on a new line with four spaces and separates elements by ', '", key="tdm|rows")
+
+
+def local_callables(stmts, binding):
+    """names bound to a lambda / bound str.format inside `stmts`, selecting among conditional bindings with `binding` (name -> value)"""
+    out = {}
+
+    def atom(node):
+        if isinstance(node, ast.Name) and node.id in binding:
+            return binding[node.id]
+        return AEval.NO
+
+    def scan(block):
+        for s in block:
+            if isinstance(s, ast.Assign) and len(s.targets) == 1 and isinstance(s.targets[0], ast.Name) and (
+                    isinstance(s.value, ast.Lambda) or (isinstance(s.value, ast.Attribute) and s.value.attr == "format")):
+                out[s.targets[0].id] = ("callable", s.value)
+            elif isinstance(s, ast.If):
+                try:
+                    c = AEval(atom).truth(AEval(atom).ev(s.test))
+                except Exception:
+                    c = None
+                if c is None:
+                    scan(s.body)
+                    scan(s.orelse)
+                else:
+                    scan(s.body if c else s.orelse)
+            elif isinstance(s, (ast.For, ast.While)):
+                scan(s.body)
+    scan(stmts)
+    return out
